@@ -53,6 +53,11 @@ def plan(pid, tier, seed):
         runs.append(("match", lambda: macroeng.match_enum(tier, seed)))
     if pid in ("C15", "C16", "C08"):
         runs.append(("ids", lambda: macroeng.ids_enum(tier, seed)))
+    if pid in ("C15", "C14"):
+        # the declaration-size boundary: a world with 256 archetypes (and 257 must be rejected)
+        runs.append(("maxworld", lambda: macroeng.maxworld(tier, seed)))
+    if pid in ("C17",):
+        runs.append(("maxworld-events", lambda: macroeng.maxworld(tier, seed, features=("events",))))
     if pid in ("C15", "C16"):
         runs.append(("wdecl", lambda: macroeng.wdecl(tier, seed)))
     if pid in ("C16",):
